@@ -434,3 +434,58 @@ pub fn malformed_ae(rng: &mut Rng) -> Vec<u8> {
         random_header_bytes(rng, 16)
     }
 }
+
+/// Near-misses of the `1#entity-tag` grammar: every truncation of a valid list, single-byte
+/// deletions/insertions, and fixed troublemakers (bare `W/`, unterminated quotes, ...).
+pub fn malformed_tags(rng: &mut Rng) -> Vec<u8> {
+    const FIXED: [&[u8]; 22] = [
+        b"W/",
+        b"W",
+        b"W/\"",
+        b"\"",
+        b"\"x\", W/",
+        b"\"x\",W",
+        b"\"x\", W/\"",
+        b"\"x\", \"",
+        b"\"x\" ,\"y\"",
+        b"\"x\"\"y\"",
+        b"\"x",
+        b"x",
+        b"W/x",
+        b"w/\"x\"",
+        b"\"x\",",
+        b",\"x\"",
+        b"\"x\", ",
+        b"* ",
+        b"\"x\" \"y\"",
+        b"",
+        b"\"x\",\t\t",
+        b"W/W/\"x\"",
+    ];
+    match rng.below(3) {
+        0 => rng.pick(&FIXED).to_vec(),
+        1 => {
+            let valid: [&[u8]; 4] = [
+                b"\"x\", W/\"y\"",
+                b"W/\"a, b\",\"x\"",
+                b"\"x\"",
+                b"W/\"x\", W/\"x\", \"zz\"",
+            ];
+            let v = rng.pick(&valid).to_vec();
+            let k = rng.usize(v.len() + 1);
+            v[..k].to_vec()
+        }
+        _ => {
+            let mut v = b"\"x\", W/\"y\", \"a, b\"".to_vec();
+            let pos = rng.usize(v.len());
+            match rng.below(3) {
+                0 => {
+                    v.remove(pos);
+                }
+                1 => v.insert(pos, *rng.pick(b"W/\", x\t")),
+                _ => v[pos] = *rng.pick(b"W/\", x\t\xff"),
+            }
+            v
+        }
+    }
+}
